@@ -10,6 +10,7 @@ from ..refs import nfa as RN
 from .. import observe as O
 
 W3 = [tuple(w) for w in RN.all_words(["a", "b"], 3)]
+WNVW = [tuple(w) for w in RN.all_words(["n", "v", "w"], 3)]
 ANN = ["", "[F=p]", "[F=q]", "[F=?x]"]      # annotation index -> text
 _SK = {}
 _FS = None
@@ -161,8 +162,16 @@ def agreement2_reference(combo):
     rules = [("S", o.get("S.head", {}), [("X", o["S.X"]), ("Y", o["S.Y"]), ("Z", o["S.Z"])]),
              ("X", o["X.head"], ["x"]), ("X", {}, [("W", {})]), ("W", o["W.head"], ["x"]),
              ("Y", o["Y.head"], ["y"]), ("Z", o["Z.head"], ["z"])]
+    return instantiate(rules, feats)
+
+
+def instantiate(rules, feats):
+    """rules: (head, head annotation, body of terminal strings / (variable, annotation)) -> CFG over (variable, values)"""
     prods = []
+    heads = []
     for head, hann, body in rules:
+        if head not in heads:
+            heads.append(head)
         occs = [(head, hann)] + [b for b in body if not isinstance(b, str)]
         named = sorted({v[1] for _, ann in occs for v in ann.values() if v[0] == "v"})
         fresh = [(i, f) for i, (_, ann) in enumerate(occs) for f in feats if f not in ann]
@@ -189,8 +198,44 @@ def agreement2_reference(combo):
                         k += 1
                 prods.append((h, tuple(b)))
     start = ("V", "START")
-    prods += [(start, (("V", ("S", a, b)),)) for a in ("p", "q") for b in ("p", "q")]
+    prods += [(start, (("V", (heads[0],) + vals),)) for vals in product(("p", "q"), repeat=len(feats))]
     return RC.Gram(start, prods)
+
+
+# ---- lexical-ambiguity family: the same head and body listed with two different annotations
+# S -> N V ; N -> n (twice) ; V -> v ; V -> w
+A3_NAMES = [("S", "N", "V"), ("S", "Gamma", "V"), ("Gamma", "N", "V")]
+A3_LEX = ["", "[F=p]", "[F=q]"]
+A3_OCC = ["", "[F=?a]", "[F=p]", "[F=q]"]
+
+
+def lexical_cases():
+    for names in range(len(A3_NAMES)):
+        for sn in range(len(A3_OCC)):
+            for sv in range(len(A3_OCC)):
+                for n1 in range(len(A3_LEX)):
+                    for n2 in range(n1, len(A3_LEX)):
+                        for v1 in range(len(A3_LEX)):
+                            for v2 in range(len(A3_LEX)):
+                                yield ("fcfg3", (names, sn, sv, n1, n2, v1, v2))
+
+
+def lexical_rules(combo):
+    names, sn, sv, n1, n2, v1, v2 = combo
+    S, N, V = A3_NAMES[names]
+    return [(S, "", [(N, A3_OCC[sn]), (V, A3_OCC[sv])]), (N, A3_LEX[n1], ["n"]), (N, A3_LEX[n2], ["n"]),
+            (V, A3_LEX[v1], ["v"]), (V, A3_LEX[v2], ["w"])]
+
+
+def lexical_text(combo):
+    return "\n".join("%s%s -> %s" % (h, a, " ".join(x if isinstance(x, str) else x[0] + x[1] for x in body))
+                     for h, a, body in lexical_rules(combo))
+
+
+def lexical_reference(combo):
+    rules = [(h, parse_ann(a), [x if isinstance(x, str) else (x[0], parse_ann(x[1])) for x in body])
+             for h, a, body in lexical_rules(combo)]
+    return instantiate(rules, ("F",))
 
 
 PROBES = [("node", {"H": ("node", {"F": ("atom", "p", None)})}), ("node", {"H": ("node", {"F": ("atom", "q", None)})}),
@@ -265,6 +310,8 @@ class C18(Prop):
                     Layer("FCFG agreement skeletons (3 variables), <=4 annotated", lambda: agreement_cases(4),
                           policies=nat + ["1", "2"]),
                     Layer("FCFG two-feature agreement family", agreement2_cases, policies=nat + ["1", "2", "3"]),
+                    Layer("FCFG lexical-ambiguity family (same production under two annotations, variable called Gamma)",
+                          lexical_cases, policies=nat + ["1", "2"]),
                     Layer("FS sequences of three unifications (strided pairs x probes)", lambda: seq_cases(61), policies=nat)]
         return [Layer("FS pairs", pairs, policies=nat + ["1"]),
                 Layer("FCFG skeletons<=2 prods, all annotations", lambda: fcfg_cases(2, 99), policies=nat + ["1"]),
@@ -272,11 +319,15 @@ class C18(Prop):
                 Layer("FCFG agreement skeletons (3 variables), all annotations", lambda: agreement_cases(99),
                       policies=nat + ["1", "2"]),
                 Layer("FCFG two-feature agreement family", agreement2_cases, policies=nat + ["1", "2", "3", "4", "5"]),
+                Layer("FCFG lexical-ambiguity family (same production under two annotations, variable called Gamma)",
+                      lexical_cases, policies=nat + ["1", "2", "3", "4"]),
                 Layer("FS sequences of three unifications (strided pairs x probes)", lambda: seq_cases(13), policies=nat)]
 
     def reference(self, case):
         if case[0] == "fcfg2":
             return {"lang": agreement2_reference(case[1]).lang_upto(3), "plain": False}
+        if case[0] == "fcfg3":
+            return {"lang": lexical_reference(case[1]).lang_upto(3), "plain": False}
         if case[0] == "fsseq":
             return {"seq": True}
         if case[0] == "fs":
@@ -308,6 +359,8 @@ class C18(Prop):
     def describe(self, case):
         if case[0] == "fcfg2":
             return {"grammar": agreement2_text(case[1])}
+        if case[0] == "fcfg3":
+            return {"grammar": lexical_text(case[1])}
         if case[0] in ("fs", "fsseq"):
             return {"a": repr(GS.spec(fs_pool()[case[1]])), "b": repr(GS.spec(fs_pool()[case[2]]))}
         return {"grammar": fcfg_text(skeleton(case), case[3])}
@@ -317,8 +370,8 @@ class C18(Prop):
     def thaw(self, case):
         if case[0] in ("fs", "fsseq"):
             return tuple(case)
-        if case[0] == "fcfg2":
-            return ("fcfg2", tuple(case[1]))
+        if case[0] in ("fcfg2", "fcfg3"):
+            return (case[0], tuple(case[1]))
         return (case[0], case[1], case[2], tuple(case[3]))
 
     def check(self, case, ref, ctx):
@@ -327,11 +380,13 @@ class C18(Prop):
         if case[0] == "fsseq":
             return self._sequences(case, ctx)
         from pyformlang.fcfg import FCFG
-        if case[0] == "fcfg2":
-            text = agreement2_text(case[1])
-            f = ctx.call(FCFG.from_text, text)
+        if case[0] in ("fcfg2", "fcfg3"):
+            text = agreement2_text(case[1]) if case[0] == "fcfg2" else lexical_text(case[1])
+            f = ctx.call(FCFG.from_text, text, A3_NAMES[case[1][0]][0]) if case[0] == "fcfg3" else ctx.call(FCFG.from_text, text)
             if ctx.returns(f, "C18.fcfg.from_text", grammar=text):
                 words3 = [("x", "y", "z"), ("x", "y"), ("x", "z", "y"), ("x",), ()]
+                if case[0] == "fcfg3":
+                    words3 = WNVW
                 ctx.batch_equal("C18.fcfg.contains", lambda w: f.value.contains(list(w)), words3,
                                 lambda w: w in ref["lang"], stop_at_first=False, grammar=text)
             return
